@@ -559,7 +559,12 @@ class Evaluator:
             container = self.eval(target.value)
             key = self._slice(target.slice)
             if isinstance(container, (list, dict)):
-                container[key] = value
+                try:
+                    container[key] = value
+                except IndexError:
+                    raise Raised("IndexError") from None
+                except TypeError as err:
+                    raise NotEvaluable(f"subscript store {ast.unparse(target)[:50]}: {err}") from None
             elif isinstance(container, Sym) and isinstance(target.slice, ast.Slice) and target.slice.lower is None and target.slice.upper is None and target.slice.step is None and isinstance(target.value, (ast.Attribute, ast.Name)):
                 # a[:] = v on an opaque array: every element replaced - the content is v from here on (aliasing of opaque arrays is not tracked)
                 self.assign(target.value, value)
